@@ -195,6 +195,10 @@ type Gen struct {
 	UpdBias  float64 // extra probability of choosing an update on a non-empty sequence
 	ExactF32 bool    // float32 values are limited to ones whose float64 widening prints identically
 	NilField bool    // exotic structs may carry nil slice / map / pointer fields
+	// HostileKeys: probability that a map / object key is one of three hostile strings drawn
+	// once per generator (separators, escapes and escape look-alikes, non-ASCII)
+	HostileKeys float64
+	hostile     []string
 }
 
 // NewGen returns a generator with the default conflict-dense shaping.
@@ -286,7 +290,19 @@ func (g *Gen) shallowVal(depth int, inArray bool) interface{} {
 	}
 }
 
-func (g *Gen) key() string { return "k" + strconv.Itoa(g.R.Intn(g.Keys)) }
+func (g *Gen) key() string {
+	if g.HostileKeys > 0 && g.R.Float64() < g.HostileKeys {
+		if g.hostile == nil {
+			for len(g.hostile) < 3 {
+				if k := hostileStrings[g.R.Intn(len(hostileStrings))]; k != "" {
+					g.hostile = append(g.hostile, k)
+				}
+			}
+		}
+		return g.hostile[g.R.Intn(len(g.hostile))]
+	}
+	return "k" + strconv.Itoa(g.R.Intn(g.Keys))
+}
 
 func (g *Gen) batch() int {
 	if g.R.Float64() < g.BigBatch {
@@ -471,7 +487,9 @@ type NestedStruct struct {
 	L   []string     `json:"l"`
 }
 
-var hostileStrings = []string{"", "\x00", "a/b", "~", "~0", "~1", "a.b", "$x", " ", "𝄞𝄞", "日本語", " lead", "quote\"q", "back\\slash", "ü", "tab\tx", "nl\nx"}
+var hostileStrings = []string{"", "\x00", "a/b", "~", "~0", "~1", "a.b", "$x", " ", "𝄞𝄞", "日本語", " lead", "quote\"q", "back\\slash", "ü", "tab\tx", "nl\nx",
+	// characters Go's JSON encoder escapes, and plain text that merely LOOKS like an escape
+	"<", ">", "&", "a<b>&c", `\u003c`, `x\u003ey`, `\u0026`, `\u0000`, `\n`, `\\`, `\"`, `\`, "%5C", "\u2028", "\u2029", "\ufffd", "\x01", "\x1f", "\x7f", "'", `{"a":1}`, "[1,2]", "null", "true", "12", "1e3"}
 
 // Str returns a valid-UTF-8 string from the hostile pool or a long one.
 func (g *Gen) Str() string {
